@@ -282,7 +282,7 @@ pub fn check(thorough: bool, _seed: u64) -> Check {
             let kind = cx.choose(3);
             // patterns of ends: ascending, descending, a duplicate at one position, an equal run, one non-normal end at one position,
             // repeats of an extreme value
-            let pat = cx.choose(6);
+            let pat = cx.choose(8);
             let mut ends: Vec<f64> = (0..n).map(|i| i as f64 - (n / 3) as f64 + 0.5).collect();
             match pat {
                 0 => {}
@@ -301,6 +301,17 @@ pub fn check(thorough: bool, _seed: u64) -> Check {
                 4 => {
                     let p = cx.choose(n);
                     ends[p] = [0.0, -0.0, 5e-324, f64::NAN, f64::INFINITY, f64::NEG_INFINITY][cx.choose(6)];
+                }
+                6 | 7 => {
+                    // not already sorted (descending, or evens-then-odds) with one non-normal end at every position
+                    if pat == 6 {
+                        ends.reverse();
+                    } else {
+                        let (ev, od): (Vec<(usize, f64)>, Vec<(usize, f64)>) = ends.iter().cloned().enumerate().partition(|(i, _)| i % 2 == 0);
+                        ends = od.into_iter().chain(ev.into_iter()).map(|(_, v)| v).collect();
+                    }
+                    let p = cx.choose(n);
+                    ends[p] = [f64::NAN, 0.0, 5e-324, f64::INFINITY][cx.choose(4)];
                 }
                 _ => {
                     let e = [f64::MAX, -f64::MAX, f64::MIN_POSITIVE, -f64::MIN_POSITIVE][cx.choose(4)];
@@ -322,7 +333,7 @@ pub fn check(thorough: bool, _seed: u64) -> Check {
             dispatch(&bytes, kind, cx)
         }),
         classes: class_names(true).into_iter().map(|(n, _)| (n, false)).collect(),
-        bounds: json!({"strings": format!("{:?} ends: ascending, descending, a duplicate at every position, a run of 4 equal ends at every position, one non-normal end (0,-0,5e-324,NaN,+-inf) at every position, 2-3 copies of +-MAX / +-MIN_POSITIVE at every position; followed by piece bytes", long_txt),
+        bounds: json!({"strings": format!("{:?} ends: ascending, descending, a duplicate at every position, a run of 4 equal ends at every position, one non-normal end (0,-0,5e-324,NaN,+-inf) at every position of the ascending, the descending and an evens-then-odds ordering, 2-3 copies of +-MAX / +-MIN_POSITIVE at every position; followed by piece bytes", long_txt),
             "piece_types": "Poly3, PolyN, Tag"}),
     };
     Check {
